@@ -47,13 +47,17 @@ func LoadSpec(path, cFile, fn, progType string) (*ProgSpec, error) {
 		}
 		return nil, err
 	}
-	var all map[string]map[string]json.RawMessage
+	var all map[string]json.RawMessage
 	if err := json.Unmarshal(b, &all); err != nil {
 		return nil, fmt.Errorf("%s: %v", path, err)
 	}
-	fm, ok := all[filepath.Base(cFile)]
+	rawFile, ok := all[filepath.Base(cFile)]
 	if !ok {
 		return sp, nil
+	}
+	var fm map[string]json.RawMessage
+	if err := json.Unmarshal(rawFile, &fm); err != nil {
+		return nil, fmt.Errorf("%s: %s: %v", path, filepath.Base(cFile), err)
 	}
 	raw, ok := fm[fn]
 	if !ok {
